@@ -12,6 +12,33 @@ def classify(case, idx, impl_out, model_out):
     return f"{kind}:result:{op[0]}"
 
 
+def bump_oracle(e):
+    """on the implementation's trace alone: every returned chunk is inside the memory, aligned, and no two overlap"""
+    hdr = e["prog"].split(" | ")[0]
+    import re
+    size = int(re.search(r"size=(\d+)", hdr).group(1)); start = int(re.search(r"start=(\d+)", hdr).group(1))
+    threads = [[o.split(" ") for o in t.split(",") if o] for t in e["prog"].split(" | ")[1:]]
+    ptr = [0] * len(threads)
+    got = []
+    for l in e["lines"]:
+        tk = l.split(" ")
+        if tk[1] == "PANIC":
+            return "panic"
+        if tk[1] == "ret":
+            t = int(tk[0][1:]); op = threads[t][ptr[t]]; ptr[t] += 1
+            if tk[3].startswith("ok:"):
+                off = int(tk[3][3:]); sz, al = int(op[1]), int(op[2])
+                if off + sz > size:
+                    return "out-of-bounds"
+                if (start + off) % al != 0:
+                    return "misaligned"
+                for (o2, s2) in got:
+                    if off < o2 + s2 and o2 < off + sz:
+                        return "overlap"
+                got.append((off, sz))
+    return None
+
+
 def run(ctx):
     core.prove(ctx)
     drv = core.build_driver(ctx)
@@ -23,6 +50,14 @@ def run(ctx):
         quick = ctx.tier == "quick"
         core.diff_component(ctx, "alloc", ["gen", "--exhaustive", 24 if quick else 64], classify, label="alloc.layout-sweep")
         core.diff_component(ctx, "alloc", ["gen", "--seed", ctx.seed, "--cases", 3000 if quick else 40000, "--len", 30 if quick else 80], classify, label="alloc.random")
+        # the bump allocator's CAS loop under concurrency: atomic-step traces against the L2 model
+        okt, log = core.build_trace(ctx)
+        if not okt:
+            ctx.violation("harness-build", "instrumented build failed", dict(engine="cargo", log=log[-3000:]), nfi=True)
+        else:
+            core.trace_component(ctx, "bump", ["random", "--seed", ctx.seed, "--cases", 8 if quick else 40, "--progs", 150 if quick else 1000], label="bump.random", oracle=bump_oracle)
+            core.trace_component(ctx, "bump", ["exhaustive", "--seed", ctx.seed + 1, "--cases", 1500 if quick else 40000, "--progs", 4 if quick else 14, "--preempt", 2 if quick else 3],
+                                 label="bump.exhaustive", oracle=bump_oracle)
     return core.finish(
         ctx, level="proof",
         rule="layout sweep: every bucket size 1..N x bucket alignment {1,2,4,8,16} x base shift {0,1,3,8} x {bb PoolAllocator, cal shm PoolAllocator}, 14 random "
